@@ -69,11 +69,13 @@ void watch_clear(int slot);
 // foreign-access watch: while set, any instrumented access to [lo,hi) by a thread other than `owner` is reported as `kind`
 void region_set(int owner, const void *lo, const void *hi, const char *kind, const char *what);
 void region_clear(int owner);
+void park();  // the calling thread waits until a preemption names it as its target or no other thread can make progress
+void region_include_owner(int owner, bool on);  // the owner's own accesses to its region are reported too (while on)
 
 /*------------------------------------------------------------------------------
  * Run control (used by interpreters/drivers)
  *----------------------------------------------------------------------------*/
-enum StartKind : uint8_t { kBegin = 0, kAfterBody = 1, kAfterExit = 2 };
+enum StartKind : uint8_t { kBegin = 0, kAfterBody = 1, kAfterExit = 2, kParked = 3 };  // kParked: ready from the beginning, but parked (see park())
 
 struct ThreadSpec {
   std::function<void()> body;
